@@ -5,7 +5,7 @@
   All theorems hold for every idna codec, every sequence of events, every addon script (`acts`: what the addons do in
   each hook) and every script of connect outcomes (`conns`).
 -/
-import MitmVerif.Lemmas.C27d
+import MitmVerif.Lemmas.C27e
 import MitmVerif.Props.C25
 set_option linter.unusedVariables false
 set_option linter.unusedSimpArgs false
@@ -1083,5 +1083,63 @@ theorem bad_length_closes_server_history (c : Cfg) (htcp : c.tcp = true) (acts :
     | done => rfl
     | crashed => exact absurd (List.mem_append_right _ (h3 hp)) hnc
   exact ⟨hdone, (h2 hdone).1⟩
+
+/-! ### asynchronous hooks: `Layer.handle_event` pauses and queues, the outcome is the sequential one -/
+
+/-- a layer between two events: nothing suspended, nothing queued -/
+def idle (σ : State) : AState := { σ := σ }
+
+/-- **C27 (pause-and-queue = one after the other).** For EVERY schedule of arriving connection events and completions of
+    the hook the layer is paused on (`Layer.handle_event`, `__process`, `__continue` of `proxy/layer.py`): what the layer
+    has emitted so far, followed by what it still owes (the rest of the suspended handler, then the queued events in
+    order), is exactly what handling the arrived events one after the other (`run`) emits; and the state it settles in is
+    the sequential one.  So every theorem above about `run` holds under asynchronous hook completion. -/
+theorem async_equals_sequential (c : Cfg) (σ : State) (sch : List AEv) :
+    (arun c (idle σ) sch).2 ++ owed c (arun c (idle σ) sch).1 = (run c σ (arrivals sch)).2 ∧
+    settled c (arun c (idle σ) sch).1 = (run c σ (arrivals sch)).1 := by
+  obtain ⟨h1, h2, _⟩ := arun_spec c sch (idle σ) (fun _ => rfl)
+  simp only [owed, settled, idle, run, Option.getD_none, List.flatten_nil, List.nil_append] at h1 h2
+  exact ⟨by simpa [owed, idle] using h1, by simpa [settled, idle] using h2⟩
+
+/-- … in particular once the layer is idle again it has emitted exactly the sequential trace and is in the sequential
+    state, with an empty queue. -/
+theorem async_quiescent (c : Cfg) (σ : State) (sch : List AEv) (hidle : (arun c (idle σ) sch).1.paused = none) :
+    (arun c (idle σ) sch).2 = (run c σ (arrivals sch)).2 ∧ (arun c (idle σ) sch).1.σ = (run c σ (arrivals sch)).1 ∧
+    (arun c (idle σ) sch).1.queue = [] := by
+  obtain ⟨h1, h2, h3⟩ := arun_spec c sch (idle σ) (fun _ => rfl)
+  have hq := h3 hidle
+  have e1 : owed c (arun c (idle σ) sch).1 = [] := by simp [owed, hidle, hq, run]
+  have e2 : settled c (arun c (idle σ) sch).1 = (arun c (idle σ) sch).1.σ := by simp [settled, hq, run]
+  have e3 : owed c (idle σ) = [] := by simp [owed, idle, run]
+  have e4 : settled c (idle σ) = σ := by simp [settled, idle, run]
+  rw [e1, e3, e4] at h1
+  rw [e2, e4] at h2
+  exact ⟨by simpa using h1, h2, hq⟩
+
+/-- **C27 (replies answer queries, asynchronous hooks).** `reply_answers_query` for what the layer emits under any
+    schedule of arrivals and hook completions, at any moment (also while a hook is pending and events are queued). -/
+theorem async_reply_answers_query (c : Cfg) (acts : List Act) (conns : List Bool) (sch : List AEv)
+    (pre post : List Out) (m : Msg) (w : Bytes)
+    (htr : (arun c (idle (init acts conns)) sch).2 = pre ++ .toClient m w :: post) :
+    m ∈ addonMsgs acts ∨ ∃ q ∈ queriesOf pre, q.id = m.id ∧ q.questions = m.questions := by
+  have h := (async_equals_sequential c (init acts conns) sch).1
+  rw [htr, List.append_assoc, List.cons_append] at h
+  exact reply_answers_query c acts conns (arrivals sch) pre _ m w h.symm
+
+/-- **C27 (flows carry their query, asynchronous hooks).** `flow_has_query` under any schedule of arrivals and hook
+    completions. -/
+theorem async_flow_has_query (c : Cfg) (acts : List Act) (conns : List Bool) (sch : List AEv)
+    (pre post : List Out) (h : Hook) (f : Flow)
+    (htr : (arun c (idle (init acts conns)) sch).2 = pre ++ .hook h f :: post) :
+    ∃ q, f.request = some q ∧ q ∈ queriesOf (pre ++ [.hook h f]) ∧
+      (h = .response → ∃ r, f.response = some r ∧ (r ∈ addonMsgs acts ∨ (r.id = q.id ∧ r.questions = q.questions))) := by
+  have he := (async_equals_sequential c (init acts conns) sch).1
+  rw [htr, List.append_assoc, List.cons_append] at he
+  exact flow_has_query c acts conns (arrivals sch) pre _ h f he.symm
+
+-- two queries arrive while the first request hook is pending; three completions later the layer has emitted the sequential trace
+example : (arun udp (idle (init [] [])) [.arrive (.clientData q1), .arrive (.clientData q2), .complete, .complete]).2 =
+    (run udp (init [] []) [.clientData q1, .clientData q2]).2 ∧
+    (arun udp (idle (init [] [])) [.arrive (.clientData q1), .arrive (.clientData q2)]).2.length = 1 := by decide +kernel
 
 end MitmVerif.Props.C27
